@@ -563,6 +563,7 @@ static void run_case(const std::string& id, bool newxta, std::vector<Cmd>& cmds)
                 if (c.arg == "xml") { int r = parse_XML_buffer(c.data.c_str(), doc.get(), newxta); printf("ret %d\n", r); }
                 else if (c.arg == "xta") { bool r = parse_XTA(c.data.c_str(), doc.get(), newxta); printf("ret %d\n", r ? 1 : 0); }
                 else if (c.arg == "xmlraw") { DocumentBuilder b(*doc); int r = parse_XML_buffer(c.data.c_str(), &b, newxta); printf("ret %d\n", r); }   // builder only: no type checker, no feature checker
+                else if (c.arg == "xtaraw") { DocumentBuilder b(*doc); int r = parse_XTA(c.data.c_str(), &b, newxta); printf("ret %d\n", r); }   // builder only
                 else if (c.arg == "xmlfile") { int r = parse_XML_file(c.data.c_str(), doc.get(), newxta); printf("ret %d\n", r); }
                 else if (c.arg == "xmlfd") {
                     char tmpl[] = "/tmp/utapdumpXXXXXX";
